@@ -5,6 +5,7 @@ names of the models actually used in a run are reported in the evidence
 (`trusted_base`).  With concrete arguments the real library function runs.
 """
 import builtins
+import datetime as _dtm
 import fractions
 import math
 import numbers
@@ -147,7 +148,7 @@ def py_min(interp, *args, **kw):
         return min(*args, **kw) if len(args) > 1 else min(args[0], **kw)
     r = args[0]
     for a in args[1:]:
-        r = sym.ite(a < r, a, r)
+        r = _pick(a < r, a, r)
     return r
 
 
@@ -159,8 +160,22 @@ def py_max(interp, *args, **kw):
         return max(*args, **kw) if len(args) > 1 else max(args[0], **kw)
     r = args[0]
     for a in args[1:]:
-        r = sym.ite(a > r, a, r)
+        r = _pick(a > r, a, r)
     return r
+
+
+def _pick(cond, a, b):
+    """a if cond else b; symbolic timedeltas are merged on their microsecond count, other non-scalar values by forking"""
+    from . import timesym
+    if isinstance(a, (timesym.STimedelta, _dtm.timedelta)) and isinstance(b, (timesym.STimedelta, _dtm.timedelta)):
+        if isinstance(cond, bool):
+            return a if cond else b
+        return timesym.STimedelta(sym.ite(cond, Sym(lift(timesym.td_us(a))), Sym(lift(timesym.td_us(b)))))
+    if isinstance(a, (Sym, int, float, fractions.Fraction)) and isinstance(b, (Sym, int, float, fractions.Fraction)):
+        return sym.ite(cond, a, b)
+    if isinstance(cond, bool):
+        return a if cond else b
+    return a if sym.ctx().branch(sym.truth(cond)) else b
 
 
 @model(np.minimum)
@@ -990,6 +1005,9 @@ def construct(interp, cls, args, kwargs, node, frame):
 def with_enter(interp, m):
     if hasattr(m, "__pyvc_enter__"):
         return m.__pyvc_enter__(interp)
+    if not hasattr(type(m), "__enter__"):
+        from .interp import PyRaise
+        raise PyRaise(TypeError("%r object does not support the context manager protocol" % type(m).__name__))
     return interp.native(type(m).__enter__, m)
 
 
@@ -1976,6 +1994,10 @@ def np_min_obj(interp, a, axis=None, **k):
 def np_argmin_obj(interp, a, axis=None, **k):
     if isinstance(a, ObjArr) and len(a.shape) == 1:
         return _fork_min(a.data)[0]
+    if isinstance(a, (list, tuple)) and axis is None and a and all(isinstance(x, (Sym, int, float, fractions.Fraction)) for x in a):
+        return _fork_min(list(a))[0]                  # first occurrence of the minimum, forking on the comparisons
+    if isinstance(a, SArr) and a.ndim == 1 and not isinstance(a.shape[0], Sym) and axis is None and 0 < a.shape[0] <= 8:
+        return _fork_min([a.fn(i) for i in range(a.shape[0])])[0]
     if deep_sym(a):
         raise OutsideSubset("np.argmin of a symbolic array")
     return np.argmin(a, axis=axis, **k)
